@@ -24,7 +24,7 @@ STATES = [1, 2, 4, 8]
 TARGETS = [2, 4, 8]
 
 
-def execute(ch, conf, k):
+def execute(ch, conf, k, max_errors=1):
     start, err, target = conf
     loop = vloop.VLoop()
     with loop:
@@ -32,13 +32,13 @@ def execute(ch, conf, k):
         t.al_state = start
         t.al_error = err
         stays = [0]
-        injected = [False]
+        injected = [0]
 
         def poll(term):
             opts = ["reach"]
             if stays[0] < k:
                 opts.append("stay")
-            if not injected[0]:
+            if injected[0] < max_errors:
                 opts.append("error")
             a = opts[ch.choose(len(opts), "poll")]
             if a == "stay":
@@ -46,7 +46,7 @@ def execute(ch, conf, k):
             else:
                 stays[0] = 0
             if a == "error":
-                injected[0] = True
+                injected[0] += 1
             return a
         t.al_poll = poll
         bus = bussim.Bus([t])
@@ -138,9 +138,9 @@ def work(conf, res):
         if v is not None:
             exp, seen, what = v
             res.violation(dict(conf=conf, choices=list(ch.choices), k=k,
-                               log=obs["log"]), exp, seen,
+                               errors=work.errors, log=obs["log"]), exp, seen,
                           sig=core.digest([what]), note=what)
-    explore.dfs(lambda ch: execute(ch, conf, k), 99, on_exec)
+    explore.dfs(lambda ch: execute(ch, conf, k, work.errors), 99, on_exec)
     a = execute(explore.Chooser(()), conf, k)
     b = execute(explore.Chooser(()), conf, k)
     if a != b:
@@ -148,7 +148,8 @@ def work(conf, res):
 
 
 def run(ctx):
-    work.k = 2 if ctx.quick else 3
+    work.k = 2 if ctx.quick else 5
+    work.errors = 1 if ctx.quick else 2
     items = [(s, e, t) for s in STATES for e in (False, True)
              for t in TARGETS]
     res = core.pmap(ctx, work, items, chunk=1)
@@ -170,7 +171,8 @@ def replay(ctx, rep):
     res = core.Result()
     c = rep["case"]
     conf = tuple(c["conf"])
-    obs = execute(explore.Chooser(tuple(c["choices"])), conf, c["k"])
+    obs = execute(explore.Chooser(tuple(c["choices"])), conf, c["k"],
+                  c.get("errors", 1))
     for e in obs["log"]:
         print("  ", e)
     print("outcome", obs["out"])
